@@ -2456,7 +2456,13 @@ class SymEx:
             for d in reversed(decs):
                 self.frames.append(modf)
                 try:
-                    r = self.ev(d, State())
+                    self._force_inline = getattr(self, '_force_inline', 0) + 1       # a decorator factory (@memoised('a', 'b')) is read through like the decorator it returns
+                    self._force_site = d
+                    try:
+                        r = self.ev(d, State())
+                    finally:
+                        self._force_inline -= 1
+                        self._force_site = None
                     if len(r) != 1 or r[0][0].exc is not None or not _callable_value(r[0][1], self):
                         raise Undecided('decorator %s of %s does not evaluate to a function of the package' % (ast.unparse(d)[:40], callee.qn))
                     fake = ast.copy_location(ast.Call(func=d, args=[ast.Name(id='_raw_', ctx=ast.Load())], keywords=[]), callee.node)
@@ -2861,7 +2867,8 @@ class SymEx:
             c = self.M.cls(how[5:])
             return self.ctor_call(c, targets[0] if targets else None, args, kwargs, st, e, how, layer)
         if targets:
-            if len(targets) == 1 and not self.suppress and self.policy(fn, targets[0], len(self.frames)):
+            if len(targets) == 1 and not self.suppress and (self.policy(fn, targets[0], len(self.frames)) or
+                                                            (getattr(self, '_force_inline', 0) and how in ('modfunc', 'func') and getattr(self, '_force_site', None) is e)):
                 t = targets[0]
                 self_term = recv
                 if how in ('static', 'modfunc', 'func', 'nested') and not t.is_classmethod:
